@@ -36,7 +36,7 @@ type c17Params struct {
 func (c17) ID() string    { return "C17" }
 func (c17) Level() string { return "exploration" }
 func (c17) Rule() string {
-	return "(pmtu) real client and server with independently drawn path MTUs from 100 up to 2000 (and the default): completion, negotiated parameters and Finished values recomputed by the wire monitor over the UNFRAGMENTED messages must not depend on either MTU. (frag) a scripted client or server cuts one handshake message (Certificate, ServerKeyExchange, ClientKeyExchange, CertificateVerify, ServerHello) into a seeded fragment set, one fragment per datagram: random partitions in arbitrary order with duplicates and overlaps (cover: must complete), the same with one byte range left out (gap: must not complete), with a fragment reaching beyond the announced length, and with conflicting announced lengths; pending fragment state (hook) stays bounded. Every case also drives the reassembly buffer object (hook) with a seeded fragment set against an interval model: complete exactly when every byte is covered, out-of-range fragments rejected, assembled bytes equal the message. Path MTUs also from 50 (GCM) / 77 (CBC); variant beyond-whole: a single fragment at offset 0 that is longer than the announced length - the endpoint must not answer the flight that contains it. distinct = distinct parameter vectors + fragment plans; non-trivial = the fragmented message reached the endpoint"
+	return "(pmtu) real client and server with independently drawn path MTUs from 100 up to 2000 (and the default): completion, negotiated parameters and Finished values recomputed by the wire monitor over the UNFRAGMENTED messages must not depend on either MTU. (frag) a scripted client or server cuts one handshake message (Certificate, ServerKeyExchange, ClientKeyExchange, CertificateVerify, ServerHello) into a seeded fragment set, one fragment per datagram: random partitions in arbitrary order with duplicates and overlaps (cover: must complete), the same with one byte range left out (gap: must not complete), with a fragment reaching beyond the announced length, and with conflicting announced lengths; pending fragment state (hook) stays bounded. Every case also drives the reassembly buffer object (hook) with a seeded fragment set against an interval model: complete exactly when every byte is covered, out-of-range fragments rejected, assembled bytes equal the message. Path MTUs also from 50 (GCM) / 77 (CBC); variant beyond-whole: a single fragment at offset 0 that is longer than the announced length - the endpoint must not answer the flight that contains it. Variant slow: the first ClientHello in three fragments 16 s apart (32 s in all) must still be reassembled. distinct = distinct parameter vectors + fragment plans; non-trivial = the fragmented message reached the endpoint"
 }
 func (c17) Components() (real, stub []string) {
 	return []string{"dtlcp client+server (instrumented): writeHandshakeRecord fragmentation, readHandshake reassembly, fragmentBuffer"},
